@@ -29,21 +29,33 @@ def seg_group_oracle(rows, ck):
 
 
 PROPS = {
-    "C02": P("Pw.Props.C02",
-             ["Pw.Props.C02.C02_roundtrip", "Pw.Props.C02.C02_stream", "Pw.Props.C02.C02_model_output_shape",
-              "Pw.Props.C02.C02_abandon"],
-             [("session", 3000, 120000)], ["Consts", "Writer"], wf_oracle=True,
+    "C02": P("Pw.Props.C02Session",
+             ["Pw.Props.C02.C02_session", "Pw.Props.C02.C02_output_parses", "Pw.Props.C02.C02_roundtrip",
+              "Pw.Props.C02.C02_stream", "Pw.Props.C02.C02_model_output_shape", "Pw.Props.C02.C02_abandon",
+              "Pw.runProg_wf", "Pw.loop_wf", "Pw.serveAfterVersion_wf", "Pw.handleCommand_wf", "Pw.copyRead_nf",
+              "Pw.binRead_nf", "Pw.serverParams_nf", "Pw.quoteByte_nf", "Pw.colFormats_wf", "Pw.decodeBindTail_rep",
+              "Pw.Props.C02.exHandlers_rep"],
+             [("session", 3000, 120000)], ["Consts", "Writer", "Session"], wf_oracle=True,
              design_ref="§7 C02",
-             level_text="Lean theorems: the strict backend grammar parser inverts the encoding of every structured message "
-                        "(all 14 builders) and of every sequence of them; an abandoned/failed frame never leaks into the next "
-                        "message (Writer model). The model emits structured messages only; it is tied to the Go code by the "
-                        "differential campaign (byte-exact transcripts of random sessions incl. failing rows, decorated errors, "
-                        "faults) and by pinned facts (message type bytes, error field bytes, Writer.Start/End/Reset bodies). The same "
-                        "strict parser is run on the implementation's real output of every case.",
-             level_note="Trusted: Lean kernel; extractor+Conformance (Consts, Writer); harness transport and scripted handlers; "
-                        "the session-level invariant 'every emitted message is WF under representable handler data' is checked "
-                        "on generated cases (oracle), not yet proved for all handler programs.",
-             technique="Lean 4 proof (round-trip of encode/strict-parse, induction on message lists) + differential correspondence"),
+             level_text="Lean theorem C02_session: for every representable configuration and set of callbacks (ConfigRep, "
+                        "HandlersRep: the strings they supply are NUL-free, counts fit their 16-bit fields, row values fit a field - "
+                        "exactly what the wire format can carry) and for EVERY client input, fault position and handler program, "
+                        "every message the model of Server.serve writes is well-formed (BMsg.WF); with C02_stream the whole output "
+                        "then parses under the strict grammar, message for message (C02_output_parses). The proof is an invariant "
+                        "over the whole session: library-made error texts are NUL-free (decimal renderings, quoted kind bytes, names "
+                        "taken from NUL-terminated fields), every result the library hands to a handler is representable "
+                        "(copyRead_nf, binRead_nf, ...), a representable handler program keeps the output well-formed and hands "
+                        "back representable errors and panic texts (runProg_wf, by induction on the program), statements and "
+                        "portals stored in the session stay representable, format codes decoded from Bind are < 2^16 "
+                        "(decodeBindTail_rep), ParameterStatus pairs are NUL-free (serverParams_nf). C02_roundtrip: the strict "
+                        "parser inverts all 14 builders; C02_abandon: an abandoned frame never leaks into the next message. "
+                        "exHandlers_rep: the hypotheses are satisfiable by a concrete handler set that also forwards library "
+                        "errors. Tie: byte-exact differential campaign of random sessions, pinned facts (type bytes, error field "
+                        "bytes, Writer.Start/End/Reset, dispatch tables); the same strict parser runs on the real output of every case.",
+             level_note="Trusted: Lean kernel; extractor+Conformance (Consts, Writer, Session); harness transport and scripted "
+                        "handlers. Bodies of 4 GiB and more (not expressible in the length field) are excluded by an explicit "
+                        "hypothesis of C02_output_parses.",
+             technique="Lean 4 proof (session-wide well-formedness invariant by induction on handler programs and loop iterations; round-trip of encode/strict-parse) + differential correspondence"),
     "C17": P("Pw.Props.C17",
              ["Pw.Props.C17.C17_fields", "Pw.Props.C17.C17_wellformed", "Pw.Props.C17.C17_codes_nodup", "Pw.Props.C17.C17_nil",
               "Pw.Props.C17.getCode_outer", "Pw.Props.C17.getSev_outer", "Pw.Props.C17.getSource_outer", "Pw.Props.C17.text_spec"],
@@ -79,7 +91,7 @@ PROPS = {
               "Pw.Props.C10.C10_skip_partial", "Pw.Props.C10.C10_submin", "Pw.Props.C10.C10_error_class",
               "Pw.Props.C10.C10_session_step", "Pw.Props.C10.C10_startup", "Pw.Props.C10.slurpChunks_le",
               "Pw.Props.C10.slurpChunks_sum"],
-             [("limit", 4000, 160000), ("limitbig", 0, 12), ("copy", 1200, 60000)], ["Reader", "Consts", "Session"],
+             [("limit", 4000, 160000), ("limitbig", 0, 12), ("copy", 1200, 60000), ("tls", 600, 20000)], ["Reader", "Consts", "Session"],
              design_ref="§7 C10",
              level_text="Lean theorems for EVERY limit L and every 32-bit declared length: a body of at most L bytes is read exactly "
                         "(C10_accept), a larger one is never delivered, its declared body is consumed in full and the stream resumes at "
@@ -113,15 +125,18 @@ PROPS = {
     "C08": P("Pw.Props.C08",
              ["Pw.Props.C08.C08_roundtrip", "Pw.Props.C08.C08_formats_admissible", "Pw.Props.C08.C08_result_rule",
               "Pw.Props.C08.C08_announced_is_used", "Pw.Props.C08.C08_paramdesc", "Pw.Props.C08.readValues_enc",
-              "Pw.Props.C08.formatRule"],
-             [("bind", 3000, 200000)], ["Accessors", "Consts"],
+              "Pw.Props.C08.formatRule", "Pw.Props.C08.C08_sound", "Pw.Props.C08.readValues_sound"],
+             [("bind", 3000, 200000)], ["Accessors", "Consts", "Row"],
              design_ref="§7 C08",
              level_text="Lean theorems for EVERY admissible Bind (any count < 2^16, any values incl. empty, NUL-containing and NULL, any "
                         "format codes): the model of readParameters/readColumnTypes returns exactly the parameters sent - count, order, "
                         "bytes, NULL vs empty - each tagged by the protocol rule (0 codes: text, 1: all, n: positional), returns the "
                         "result codes as sent and leaves surplus bytes untouched (C08_roundtrip, induction on the parameter list); the "
                         "result-format rule used for RowDescription and DataRow is one function equal to the protocol rule "
-                        "(C08_result_rule, C08_announced_is_used); ParameterDescription round-trips the declared OIDs. Tie: differential "
+                        "(C08_result_rule, C08_announced_is_used); ParameterDescription round-trips the declared OIDs. Conversely "
+                        "(C08_sound): whenever the decoder accepts a body, that body IS the encoding of exactly the parameters and "
+                        "codes it returns plus the untouched rest - every value handed to the statement function is a contiguous "
+                        "piece of the message of the declared length; a lying count or length can only make it reject. Tie: differential "
                         "campaign Parse/Describe/Bind/Describe/Execute; the oracle compares what the real statement function received, "
                         "what Describe announced and how the DataRow was encoded with expectations the generator derives from how it built "
                         "the message (independent of library and model), incl. decoding through Parameter.Scan.",
@@ -134,7 +149,7 @@ PROPS = {
               "Pw.Props.C09.encodeRow_fields", "Pw.Props.C09.C09_row_message", "Pw.Props.C09.C09_int_binary",
               "Pw.Props.C09.C09_int_text", "Pw.Props.C09.C09_text", "Pw.Props.C09.C09_bytea_binary",
               "Pw.Props.C09.C09_bool_binary", "Pw.Props.C09.C09_uuid_binary", "Pw.parseIntText_decInt"],
-             [("values", 3000, 150000), ("simple", 800, 30000), ("bind", 500, 20000)], ["Writer", "Consts"],
+             [("values", 3000, 150000), ("simple", 800, 30000), ("bind", 500, 20000)], ["Writer", "Consts", "Row"],
              design_ref="§7 C09",
              level_text="Lean theorems about the model of DataWriter.Row and the codecs it uses, for EVERY row: a successful Row writes "
                         "exactly one DataRow with one field per declared column, field k being the encoding of value k for column k's "
@@ -159,7 +174,9 @@ PROPS = {
               "Pw.Props.C04.loop_safe", "Pw.Props.C04.handleExecute_safe", "Pw.Props.C04.handleCommand_safe",
               "Pw.Props.C04.serveAfterVersion_safe", "Pw.Props.C04.C04_ends", "Pw.Props.C04.loop_ends",
               "Pw.Props.C04.loop_fuel", "Pw.Props.C04.stepCommand_progress", "Pw.runProg_progress",
-              "Pw.copyRead_spec", "Pw.binFill_spec", "Pw.binRead_good"],
+              "Pw.copyRead_spec", "Pw.binFill_spec", "Pw.binRead_good",
+              "Pw.Props.C08.C08_sound", "Pw.Props.C14.C14_count_mismatch", "Pw.Props.C14.C14_truncated_count",
+              "Pw.Props.C20.C20_bounded", "Pw.Props.C18.C18_alloc_bound"],
              [("hostile", 4000, 300000), ("alloc", 600, 20000), ("session", 1200, 100000), ("limit", 600, 40000),
               ("bincopy", 600, 40000), ("copy", 600, 40000), ("paramsd", 200, 6000), ("startup", 500, 40000)],
              ["Panics", "Reader", "Params", "Accessors", "Session"],
@@ -174,8 +191,11 @@ PROPS = {
                         "closed - no step blocks (copyRead_spec, binFill_spec, binRead_good, runProg_progress: the library's COPY "
                         "readers and every handler program only consume input and block only on a merely silent stream), every loop "
                         "iteration that continues has consumed a message (stepCommand_progress), and the fuel of the model's loops is "
-                        "never what stops them (loop_fuel, loop_ends). The model is total: every function is structurally "
-                        "recursive. Tie: the "
+                        "never what stops them (loop_fuel, loop_ends). Nothing fabricated: an accepted Bind body IS the encoding of "
+                        "the parameters delivered (C08_sound), a binary COPY row with a lying field count or a stream ending inside "
+                        "a row is an error (C14_count_mismatch, C14_truncated_count), ParseParameters is total and capped "
+                        "(C20_bounded), the message buffer is sized by min(declared, limit) (C18_alloc_bound). The model is total: "
+                        "every function is structurally recursive. Tie: the "
                         "'hostile' differential campaign (valid, lying and bit-damaged messages in every phase incl. text and binary "
                         "COPY through the library's own readers and ParseParameters; read faults / EOF after the n-th byte, write "
                         "faults at the k-th Write) run against the real server through Server.Serve in child processes: a panic kills "
@@ -220,7 +240,7 @@ PROPS = {
               "Pw.Props.C05.C05_after_completion_silent", "Pw.Props.C05.C05_one_complete", "Pw.Props.C05.C05_handler_no_ready",
               "Pw.Props.C05.C05_bad_row_silent", "Pw.Props.C05.C05_cycle", "Pw.Props.C05.C05_blank_no_parse",
               "Pw.Props.C05.C05_error_stops"],
-             [("simple", 3000, 250000)], ["Consts", "Writer", "Session"],
+             [("simple", 3000, 250000)], ["Consts", "Writer", "Session", "Row"],
              design_ref="§7 C05",
              level_text="Lean theorems, by induction over ALL handler programs (interaction trees, adaptive ones included): DataRows "
                         "emitted = Row calls that returned success; every Written() answer = rows delivered so far; wrong-arity, "
@@ -238,7 +258,7 @@ PROPS = {
              ["Pw.Props.C06.C06_skip", "Pw.Props.C06.C06_sync", "Pw.Props.C06.C06_error_one", "Pw.Props.C06.C06_bind_unknown",
               "Pw.Props.C06.C06_execute_unknown", "Pw.Props.C06.C06_parse_reply", "Pw.Props.C06.C06_flush",
               "Pw.Props.C06.C06_execute_no_ready"],
-             [("ext", 3000, 250000)], ["Consts", "Session"],
+             [("ext", 3000, 250000), ("multi", 400, 12000)], ["Consts", "Session"],
              design_ref="§7 C06",
              level_text="Lean theorems about the command handlers for EVERY session state and handler: while discarding, every message "
                         "except Sync/Terminate changes nothing at all (no reply, no callback); Sync emits exactly one ReadyForQuery and "
@@ -258,7 +278,7 @@ PROPS = {
              ["Pw.Props.C07.C07_store_refines", "Pw.Props.C07.C07_remove_refines", "Pw.Props.C07.lookup_store_same",
               "Pw.Props.C07.lookup_store_other", "Pw.Props.C07.lookup_remove_same", "Pw.Props.C07.lookup_remove_other",
               "Pw.Props.C07.C07_parse", "Pw.Props.C07.C07_bind", "Pw.Props.C07.C07_execute"],
-             [("names", 3000, 200000)], ["Startup", "Session"],
+             [("names", 3000, 200000), ("bind", 600, 20000)], ["Startup", "Session"],
              design_ref="§7 C07",
              level_text="Lean theorems: the statement and portal maps refine partial functions name -> definition (store replaces exactly "
                         "that name, remove makes exactly that name unresolvable, all other names untouched - for all maps and names, the "
@@ -275,7 +295,7 @@ PROPS = {
              ["Pw.Props.C13.C13_skip_flush_sync", "Pw.Props.C13.C13_data", "Pw.Props.C13.C13_done", "Pw.Props.C13.C13_fail",
               "Pw.Props.C13.C13_foreign", "Pw.Props.C13.C13_copyin_response", "Pw.Props.C13.C13_handler_emits_no_error",
               "Pw.Props.C13.C13_one_cycle"],
-             [("copy", 3000, 200000)], ["Consts", "Session"],
+             [("copy", 3000, 200000), ("bincopy", 1000, 40000)], ["Consts", "Session", "Row"],
              design_ref="§7 C13",
              level_text="Lean theorems: in COPY mode any run of Flush/Sync messages is skipped, a CopyData payload reaches the handler "
                         "byte-exact and only that message is consumed, CopyDone is end-of-stream, CopyFail and every other message type "
@@ -349,7 +369,7 @@ PROPS = {
              technique="Lean 4 proof (induction on the pair list, membership reasoning on the parameter map) + differential correspondence"),
     "C19": P("Pw.Props.C19",
              ["Pw.Props.C19.C19_chain", "Pw.Props.C19.C19_failure_ends", "Pw.Props.C19.C19_terminate", "Pw.Props.C19.mwEvents_succ"],
-             [("lifecycle", 3000, 150000)], ["Startup", "Session"],
+             [("lifecycle", 3000, 150000), ("multi", 300, 10000)], ["Startup", "Session"],
              design_ref="§7 C19",
              level_text="Lean theorems: for ANY number of registered middlewares they run once each, in registration order, up to and "
                         "including the first failing one, write nothing, and the chain succeeds exactly when none fails (induction on the "
@@ -404,7 +424,7 @@ PROPS = {
     "C18": P("Pw.Props.C18",
              ["Pw.Props.C18.inv_init", "Pw.Props.C18.inv_reset", "Pw.Props.C18.inv_take", "Pw.Props.C18.inv_run",
               "Pw.Props.C18.C18_write_disjoint", "Pw.Props.C18.C18_never_overwritten", "Pw.Props.C18.C18_alloc_bound"],
-             [("heap", 2000, 200000), ("retain", 2000, 150000)], ["Reader", "Accessors"],
+             [("heap", 2000, 200000), ("retain", 2000, 150000), ("names", 600, 20000)], ["Reader", "Accessors"],
              design_ref="§7 C18",
              level_text="Lean theorems about a heap model of reader.Msg (arenas, window = (arena, offset, len, cap), reset as in "
                         "reader.go): for EVERY history of message reads (any sizes: around the 4 KiB granule, chunks of skipped oversized "
